@@ -2781,6 +2781,19 @@ class SequenceAndSetBase(base.ConstructedAsn1Type):
             if value is noValue or not value.isValue:
                 continue
 
+            namedType = self.componentType[idx]
+
+            if namedType.isDefaulted:
+                # a DEFAULT field holding its default value is not sent:
+                # for PRESENT/ABSENT purposes it is an absent field, whether
+                # it was assigned or instantiated by an earlier read
+                try:
+                    if value == namedType.asn1Object:
+                        continue
+
+                except error.PyAsn1Error:
+                    pass
+
             name = self.componentType.getNameByPosition(idx)
 
             mapping[name] = value
